@@ -280,7 +280,12 @@ inline std::uint64_t Session::addEventSource(EventSource eventSource)
   std::lock_guard<std::mutex> lock(_mutex);
 
   eventSource.id = _nextSourceId;
-  serializeSizePrefixedTagged(eventSource, _sources);
+
+  // Add the entry in one go: a memory dump must never contain a partial entry
+  _specialEntryBuffer.clear();
+  serializeSizePrefixedTagged(eventSource, _specialEntryBuffer);
+  _sources.write(_specialEntryBuffer.data(), _specialEntryBuffer.ssize());
+
   return _nextSourceId++;
 }
 
@@ -298,7 +303,10 @@ inline void Session::setClockSync(const ClockSync& clockSync)
 {
   std::lock_guard<std::mutex> lock(_mutex);
 
-  serializeSizePrefixedTagged(clockSync, _clockSync);
+  // Add the entry in one go: a memory dump must never contain a partial entry
+  _specialEntryBuffer.clear();
+  serializeSizePrefixedTagged(clockSync, _specialEntryBuffer);
+  _clockSync.write(_specialEntryBuffer.data(), _specialEntryBuffer.ssize());
   _consumeClockSync = true;
 }
 
